@@ -11,6 +11,7 @@ MUTANTS = [
     ('tapered wire as single wire', [('mininec.Wire.n_emulated_wires', "        if self.segtype == 0:\n            return 1\n        return self.n_segments", "        return 1")], ['counts', 'n_emulated']),
     ('coordinate only for first medium', [('mininec.Medium.as_basic_input', "        if self.next:\n            # X OR R COORDINATE OF NEXT MEDIA INTERFACE:", "        if self.next and not self.prev:\n            # X OR R COORDINATE OF NEXT MEDIA INTERFACE:")], ['media-prompts']),
     ('height for every medium', [('mininec.Medium.as_basic_input', "        if self.prev:\n            # HEIGHT OF MEDIA:", "        if True:\n            # HEIGHT OF MEDIA:")], ['media-prompts']),
+    ('second wire end not snapped to the ground', [('mininec.Wire.compute_ground', "        if abs (self.p2 [-1]) < eps:\n            self.p2 [-1] = 0.0\n", "")], ['grounded-end']),
 ]
 REFACTORS = [
     ('source triple via temporaries', [('mininec.Excitation.as_basic_input', "r.append ('%d, %g, %g' % (self.idx + 1, self.magnitude, self.phase_d))", "ph = self.phase_d\n        r.append ('%d, %g, %g' % (self.idx + 1, self.magnitude, self.phase_d))")]),
